@@ -175,7 +175,7 @@ pub fn run(tier: &str) -> i32 {
     }
     // archives written after opening and editing an existing archive: the base is library-written (every small map over 3
     // ids with non-empty metadata) or foreign (free layout), opened by either reader, edited (nothing; internal
-    // compression changed to each other one; metadata replaced / re-assigned unchanged; tiles removed and added; the
+    // compression changed to each other one; metadata replaced / re-assigned unchanged; tiles removed and added, a tile added below the lowest id; the
     // other header settings changed) and written by the flavour that opened it
     {
         let edits_for = |l: &Logical| -> Vec<(&'static str, Edit)> {
@@ -193,6 +193,8 @@ pub fn run(tier: &str) -> i32 {
             let ks = contents4();
             let first = l.tiles.keys().next().copied();
             v.push(("tiles", Edit { remove: first.into_iter().collect(), add: vec![(5, ks[1].clone()), (3, ks[2].clone())], ..Edit::default() }));
+            // a tile below (or replacing) the lowest id: in-memory data that belongs in front of everything read back
+            v.push(("add-lowest", Edit { add: vec![(0, ks[3].clone())], ..Edit::default() }));
             let mut s = l.settings.clone();
             s.tile_type = pmtiles2::TileType::Mvt;
             s.tile_compression = Compression::GZip;
